@@ -175,27 +175,27 @@ where
         l.check(&config, op, || vec![what.clone()], 0, &Expect::Is(want), &got);
     };
     for b in [false, true] {
-        chk(format!("bool {}", b), Obs::V(T::cast_from(b).z::<Z>()), Obs::V(AsPrimitive::<T>::as_(b).z::<Z>()));
+        chk(format!("bool {}", b), vengine::guard(|| Obs::V(T::cast_from(b).z::<Z>())), vengine::guard(|| Obs::V(AsPrimitive::<T>::as_(b).z::<Z>())));
     }
     for c in vcore::casts::chars(refmodel::Tier::Quick) {
-        chk(format!("char {}", c as u32), Obs::V(T::cast_from(c).z::<Z>()), Obs::V(AsPrimitive::<T>::as_(c).z::<Z>()));
+        chk(format!("char {}", c as u32), vengine::guard(|| Obs::V(T::cast_from(c).z::<Z>())), vengine::guard(|| Obs::V(AsPrimitive::<T>::as_(c).z::<Z>())));
     }
     for b in floatspec::structured_patterns(F32, false).into_iter().step_by(3) {
         let f = f32::from_bits(b as u32);
-        chk(format!("f32 {:#x}", b), Obs::V(T::cast_from(f).z::<Z>()), Obs::V(AsPrimitive::<T>::as_(f).z::<Z>()));
+        chk(format!("f32 {:#x}", b), vengine::guard(|| Obs::V(T::cast_from(f).z::<Z>())), vengine::guard(|| Obs::V(AsPrimitive::<T>::as_(f).z::<Z>())));
     }
     for b in floatspec::structured_patterns(F64, false).into_iter().step_by(11) {
         let f = f64::from_bits(b);
-        chk(format!("f64 {:#x}", b), Obs::V(T::cast_from(f).z::<Z>()), Obs::V(AsPrimitive::<T>::as_(f).z::<Z>()));
+        chk(format!("f64 {:#x}", b), vengine::guard(|| Obs::V(T::cast_from(f).z::<Z>())), vengine::guard(|| Obs::V(AsPrimitive::<T>::as_(f).z::<Z>())));
     }
     let vals = if T::BITS <= 16 { refmodel::sets::full(T::BITS) } else { refmodel::sets::structured(T::DIGIT_BITS, T::N, refmodel::Tier::Quick) };
     for bytes in vals.iter() {
         let x = T::from_le(bytes);
         let h = vengine::hex(bytes);
-        chk(format!("{} -> f32", h), Obs::F(<f32 as CastFrom<T>>::cast_from(x).to_bits() as u64), Obs::F(AsPrimitive::<f32>::as_(x).to_bits() as u64));
-        chk(format!("{} -> f64", h), Obs::F(<f64 as CastFrom<T>>::cast_from(x).to_bits()), Obs::F(AsPrimitive::<f64>::as_(x).to_bits()));
-        chk(format!("{} -> {}", h, W1::type_name()), Obs::V(<W1 as CastFrom<T>>::cast_from(x).z::<Z>()), Obs::V(AsPrimitive::<W1>::as_(x).z::<Z>()));
-        chk(format!("{} -> {}", h, W2::type_name()), Obs::V(<W2 as CastFrom<T>>::cast_from(x).z::<Z>()), Obs::V(AsPrimitive::<W2>::as_(x).z::<Z>()));
+        chk(format!("{} -> f32", h), vengine::guard(|| Obs::F(<f32 as CastFrom<T>>::cast_from(x).to_bits() as u64)), vengine::guard(|| Obs::F(AsPrimitive::<f32>::as_(x).to_bits() as u64)));
+        chk(format!("{} -> f64", h), vengine::guard(|| Obs::F(<f64 as CastFrom<T>>::cast_from(x).to_bits())), vengine::guard(|| Obs::F(AsPrimitive::<f64>::as_(x).to_bits())));
+        chk(format!("{} -> {}", h, W1::type_name()), vengine::guard(|| Obs::V(<W1 as CastFrom<T>>::cast_from(x).z::<Z>())), vengine::guard(|| Obs::V(AsPrimitive::<W1>::as_(x).z::<Z>())));
+        chk(format!("{} -> {}", h, W2::type_name()), vengine::guard(|| Obs::V(<W2 as CastFrom<T>>::cast_from(x).z::<Z>())), vengine::guard(|| Obs::V(AsPrimitive::<W2>::as_(x).z::<Z>())));
     }
     if run.in_replay() {
         match l.viols.first() {
